@@ -1426,3 +1426,89 @@ def run_direct(pname: str, prof: Profile, root: Any, interner: Interner,
                     "clause": "AllChildrenReached:function_body_node_not_visited",
                     "what": f"{bg.kind(missing[0])} in a function body never mapped"})
     return res
+
+
+# --------------------------------------------------------------------------
+# 7. ladders and API-built graphs
+
+def ladder_shapes(depth: int) -> list[tuple[str, list[list[int]], list[int]]]:
+    """Abstract DAGs with exponentially many root-to-leaf paths:
+    two rails crossing at every level (2^depth paths), x = x + x doubling,
+    and two structurally equal two-rail ladders under one root (duplicates)."""
+    out = []
+    ch: list[list[int]] = [[], []]
+    for _ in range(depth):
+        a, b = len(ch) - 1, len(ch)
+        ch += [[a, b], [b, a]]
+    ch.append([len(ch) - 1, len(ch)])
+    out.append(("rails", ch, list(range(1, len(ch) + 1))))
+    ch2: list[list[int]] = [[]]
+    for _ in range(depth):
+        ch2.append([len(ch2), len(ch2)])
+    out.append(("doubling", ch2, list(range(1, len(ch2) + 1))))
+    half = ch[:-1]
+    n = len(half)
+    ch3 = [list(c) for c in half] + [[x + n for x in c] for c in half] + [[n, 2 * n]]
+    rep3 = list(range(1, n + 1)) + list(range(1, n + 1)) + [2 * n + 1]
+    out.append(("rails_dup", ch3, rep3))
+    return out
+
+
+T2_VARIANTS = ["ew", "remap", "einsum", "mixed"]
+
+
+def build_t2(ch: list[list[int]], rep: list[int], variant: str, *, seed: int = 0,
+             symbolic: bool = False, root: str = "dict") -> Any:
+    """The abstract DAG through the PUBLIC API (meaningful programs): every
+    node is a 4x4 float64 array (or n x 4 with a size parameter); auxiliary
+    nodes may appear.  Nodes of one class are built by the same calls."""
+    import pytato as pt
+
+    from ptverif.usertags import BazTag
+    rng = np.random.default_rng([seed, len(ch), T2_VARIANTS.index(variant)])
+    n0 = pt.make_size_param("n") if symbolic else 4
+    nodes: list[Any] = []
+    choice: dict[int, int] = {}
+    for k in range(1, len(ch) + 1):
+        kids = [nodes[c - 1] for c in ch[k - 1]]
+        r = rep[k - 1]
+        if r not in choice:
+            choice[r] = int(rng.integers(0, 1000))
+        w = choice[r]
+        if not kids:
+            if w % 3 == 0 and rep.count(r) == 1 and not symbolic:
+                node = pt.make_data_wrapper(np.full((4, 4), float(r)))
+            else:
+                node = pt.make_placeholder(f"p{r}", (n0, 4), np.float64)
+        else:
+            a = kids[0]
+            b = kids[1] if len(kids) > 1 else None
+            c = kids[2] if len(kids) > 2 else None
+            v = variant if variant != "mixed" else ["ew", "remap", "einsum"][w % 3]
+            if v == "ew" or symbolic:
+                node = [pt.sin(a), 2 * a, a + 1][w % 3] if b is None else (
+                    [a + b, a * b, pt.maximum(a, b)][w % 3])
+                if c is not None:
+                    node = pt.where(pt.greater(node, c), node, c)
+            elif v == "remap":
+                if b is None:
+                    node = [a.T, pt.roll(a, 1, 0), a[::-1, :], pt.reshape(a, (2, 8)).reshape(4, 4),
+                            a[np.array([3, 2, 1, 0])]][w % 5]
+                else:
+                    node = [pt.concatenate([a, b])[2:6], pt.stack([a, b])[w % 2],
+                            pt.concatenate([a, b], axis=1)[:, ::2]][w % 3]
+                    if c is not None:
+                        node = pt.stack([node, c], axis=1)[:, 0, :] + c
+            else:
+                if b is None:
+                    node = [pt.einsum("ij->ji", a), pt.einsum("ij,ij->ij", a, a),
+                            pt.einsum("ii->i", a)[:, None] * a][w % 3]
+                else:
+                    node = [a @ b, pt.einsum("ij,kj->ik", a, b), pt.einsum("ij,ij->ij", a, b)][w % 3]
+                    if c is not None:
+                        node = pt.einsum("ij,jk,kl->il", a, b, c) if w % 2 else node @ c
+            node = node.tagged(BazTag(r))
+        nodes.append(node)
+    if root == "array":
+        return nodes[-1]
+    return pt.make_dict_of_named_arrays({"out0": nodes[-1], "out1": nodes[0] + nodes[-1]})
